@@ -8,4 +8,5 @@ let table = [
   ("vss", Model.entry_vss);
   ("bn", Model.entry_bn2);
   ("evm", Model.entry_evm);
+  ("recover", Model.entry_recover);
 ]
